@@ -287,5 +287,56 @@ PROPS["C12"] = dict(
                 "sampled; all views are compared with the model after every step, so visibility through exactly the covering views follows."),
     level_note="Trusts the harness model of Go slices; the exact transition count of the DFS is recorded in coverage.notes.dfs_transitions.",
 )
+PROPS["C18"] = dict(
+    pkg="c18", idx=18,
+    rule=("Cases = (operation, element types, channels 1..8, frames 0..4096, destination whole buffer or a window with spare capacity). Operations: Sample/SetSample "
+          "and the size methods, AppendSample below and at capacity, Write/Read/WriteStriped/ReadStriped (169 type pairs, nil and uneven members), the nine "
+          "conversions (169 instantiations), Append within capacity, channel view get/set, pool Get-use-Put cycle, Slice (local and escaping). Oracle: "
+          "testing.AllocsPerRun(100, op) == 0, escaping Slice <= 1; everything the closure needs is allocated beforehand and headers are restored by struct "
+          "assignment. Non-trivial: frames >= 1 (the operation does work); distinct = distinct (operation, types, shape)."),
+    quick=dict(rapid=dict(checks=3000, shards=2)),
+    thorough=dict(rapid=dict(checks=30000, shards=8)),
+    assumptions=COMMON_ASSUME + ["escape analysis and inlining are compiler decisions: the verdict is for go1.23.5 and the generated instantiations/shapes",
+                                 "non-race build, one process per shard (AllocsPerRun pins GOMAXPROCS to 1 and reads process-wide malloc counters)"],
+    technique="property-based testing (rapid) + exhaustive operation x type sweep with testing.AllocsPerRun as the oracle",
+    level_text=("Every operation x every element type (all 169 conversions) is measured at several shapes in both tiers; rapid samples further shapes and type pairs."),
+    level_note="AllocsPerRun truncates the per-run average, so a one-off allocation by the runtime (e.g. a pool refill after GC) does not count while any per-call allocation does.",
+)
+PROPS["C11"] = dict(
+    pkg="c11", idx=11, race=True,
+    rule=("Cases = (element type, allocator shape, G in {2,3,4,8,16,32,64} goroutines, M in 1..30 get/fill/verify/put cycles each, GOMAXPROCS in {1,2,4,8,16}, a per-goroutine "
+          "mask of runtime.Gosched() yield points after get / after fill / after verify, shared *PoolAllocator or by-value copies, optionally a goroutine forcing "
+          "garbage collections during the run). Built with -race; no synchronisation between workers besides a start barrier and the final WaitGroup. Oracle: the race "
+          "detector stays silent; every obtained buffer has the allocator's shape and reads zero over its whole capacity; each goroutine writes its (goroutine, cycle) "
+          "stamp over the whole capacity, yields, and re-reads it before Put - a foreign value means two holders. Non-trivial: G>=4 with GOMAXPROCS>=2 and at least one "
+          "recycled buffer observed; also counted: by-value copies, GC during the run."),
+    quick=dict(rapid=dict(checks=120, shards=4), timeout=900),
+    thorough=dict(rapid=dict(checks=1000, shards=8), timeout=3600),
+    assumptions=COMMON_ASSUME + ["schedules are sampled by the Go scheduler, not enumerated; a failing schedule cannot be replayed deterministically (replay re-runs the case repeatedly)",
+                                 "the race detector reports unordered conflicting accesses that actually executed; it does not need the unlucky interleaving to corrupt data"],
+    technique="randomised concurrent stress under the Go race detector with rapid-generated configurations (goroutines, GOMAXPROCS, yield points, GC); freshness and ownership-stamp oracle",
+    level_text=("Schedule sampling, not enumeration: rapid generates the concurrency configuration, the Go scheduler picks the interleaving. Decisive for the realistic defect classes "
+                "(unsynchronised shared state in the pool, shared buffers handed out twice) through the race detector and ownership stamps; a defect needing one specific "
+                "preemption point is out of reach (DESIGN.md section 6)."),
+    level_note="Race reports are turned into violations with the process log as the replay artefact.",
+)
+PROPS["C19"] = dict(
+    pkg="c19", idx=19, race=True,
+    rule=("Cases = (element type, channels, frames F, R readers + W writers <= 16, GOMAXPROCS in {1,2,4,8,16}, per-goroutine scripts of up to 40 operation codes and yield masks). "
+          "Frames [0,RO) are read-only; writer w owns shared.Slice(s_w,e_w) over its own disjoint frame range. Readers run every read-only entry point on the shared header "
+          "and the read-only range: Sample, the six size methods, BufferIndex, Read, ReadStriped, Slice (also nested), Channel(c).Sample and its size methods, conversion source "
+          "into a private destination. Writers use only their window: SetSample, Write, WriteStriped (nil members), conversion destination, Channel(c).SetSample. Built with -race; "
+          "no synchronisation besides a start barrier and the WaitGroup. Oracle: race detector silent; every reader result equals the same script run sequentially beforehand; "
+          "afterwards the whole buffer equals the sequential execution of the writers' scripts and the header is unchanged. Non-trivial: R>=2 and W>=2 with GOMAXPROCS>=2 "
+          "(sub-classes concurrentReaders, concurrentDisjointWriters)."),
+    quick=dict(rapid=dict(checks=200, shards=4), timeout=900),
+    thorough=dict(rapid=dict(checks=1500, shards=8), timeout=3600),
+    assumptions=COMMON_ASSUME + ["schedules are sampled by the Go scheduler, not enumerated; a failing schedule cannot be replayed deterministically (replay re-runs the case repeatedly)",
+                                 "the race detector reports unordered conflicting accesses that actually executed"],
+    technique="randomised concurrent stress under the Go race detector with rapid-generated reader/writer scripts; differential oracle against the sequential execution of the same scripts",
+    level_text=("Schedule sampling, not enumeration. Hidden shared mutable state in a read path or a write outside a slice's window is an unordered conflicting access, which the race "
+                "detector reports whenever both accesses execute, whatever the interleaving; results are also compared with a sequential run."),
+    level_note="Race reports are turned into violations with the process log as the replay artefact.",
+)
 
 NOT_APPLICABLE = {}
